@@ -53,8 +53,12 @@ class ModbusAsciiFramer(ModbusFramer):
     # ----------------------------------------------------------------------- #
     def decode_data(self, data):
         if len(data) > 1:
-            uid = int(data[1:3], 16)
-            fcode = int(data[3:5], 16)
+            try:
+                uid = int(data[1:3], 16)
+                fcode = int(data[3:5], 16)
+            except ValueError:
+                # not the start of an ASCII frame: nothing to report
+                return dict()
             return dict(unit=uid, fcode=fcode)
         return dict()
 
